@@ -28,6 +28,52 @@ func stressColl() *column.Collection {
 	return c
 }
 
+// growthWitness drives the one mix the race detector is known to flag on the unchanged tree
+// (finding D19): typed point reads and a filter on chunk 0 beside a writer whose commit adds
+// chunks 1 and 2 to the columns. Under -race the reports land in the race log which ./check
+// classifies by racing pair; without -race this only exercises the code.
+func growthWitness(rep *Report) {
+	c := column.NewCollection(column.Options{Capacity: 64})
+	c.CreateColumn("a", column.ForInt64())
+	c.CreateColumn("s", column.ForString())
+	for i := 0; i < 100; i++ {
+		c.Insert(func(r column.Row) error { r.SetInt64("a", int64(i)); r.SetString("s", "x"); return nil })
+	}
+	var stop int32
+	var wg sync.WaitGroup
+	var reads int64
+	for w := 0; w < 3; w++ {
+		wg.Add(1)
+		go func(w int) {
+			defer wg.Done()
+			for atomic.LoadInt32(&stop) == 0 {
+				if w == 0 {
+					c.Query(func(txn *column.Txn) error {
+						txn.WithInt("a", func(v int64) bool { return v > 5 }).Count()
+						return nil
+					})
+				} else {
+					c.QueryAt(uint32(w), func(row column.Row) error { row.Int64("a"); row.String("s"); return nil })
+				}
+				atomic.AddInt64(&reads, 1)
+			}
+		}(w)
+	}
+	for round := 0; round < 3; round++ {
+		c.Query(func(txn *column.Txn) error {
+			for i := 0; i < 16384; i++ {
+				txn.Insert(func(row column.Row) error { row.SetInt64("a", 1); return nil })
+			}
+			return nil
+		})
+		time.Sleep(2 * time.Millisecond)
+	}
+	atomic.StoreInt32(&stop, 1)
+	wg.Wait()
+	c.Close()
+	rep.count(fmt.Sprintf("growth-witness-reads=%d", reads))
+}
+
 func runStress(rep *Report, replay string) {
 	dur := 3 * time.Second
 	if rep.Tier == "thorough" {
@@ -43,6 +89,9 @@ func runStress(rep *Report, replay string) {
 			rep.Violations = append(rep.Violations, v)
 		}
 		rep.count("fail:" + class)
+	}
+	if rep.Property == "C18" && replay == "" {
+		growthWitness(rep)
 	}
 	c := stressColl()
 	// initial population: rows keep the invariant a + b = sum, s = decimal(a)
@@ -179,6 +228,7 @@ func runStress(rep *Report, replay string) {
 			name := fmt.Sprintf("ix%d", atomic.AddInt64(&nIdx, 1)%3)
 			c.CreateIndex(name, "b", func(rd column.Reader) bool { return rd.Int()%2 == 0 })
 			time.Sleep(20 * time.Millisecond)
+			c.DropIndex(name) // a name is re-used only after its index was dropped
 		})
 	}
 	// watchdog
